@@ -81,6 +81,27 @@ pub fn run(tier: &str, seed: u64) {
     if g.chance(1, 3) {
       script.extend([g.next() | 12451, g.next() | 1, g.next() | 1]);
     }
+    // a coefficient draw that IS the zero element, at a chosen position (the leading coefficient of
+    // the first polynomial, of a later one, or any other): dealt as drawn, never replaced
+    if g.chance(1, 3) && t >= 2 && k >= 1 {
+      let per = t as u64 - 1;
+      let pos = match g.below(3) {
+        0 => 0,
+        1 => per * g.below(k as u64),
+        _ => g.below((per * k as u64).min(64)),
+      };
+      if pos < 64 {
+        script.clear();
+        for j in 0..=pos {
+          if j == pos {
+            script.extend([0, 0, g.next() << 1]);
+          } else {
+            script.extend([g.next(), g.next(), g.next() & !1]);
+          }
+        }
+        stat("sharks.deal.zero_coefficient_draw");
+      }
+    }
     let mut rng = ScriptRng::new(script, g.next());
     let nnext = g.range(0, (t as u64 + 2).min(if quick(tier) { 12 } else { 40 })) as usize;
     let ngen = g.range(0, 3) as usize;
